@@ -4,6 +4,7 @@ from __future__ import annotations
 import itertools
 from fractions import Fraction as F
 
+from hypothesis import assume
 from hypothesis import strategies as st
 
 from .. import lib, probes
@@ -25,7 +26,7 @@ RULE = (
     "independent copy, DisjointShape([]) and only-Empty lists give the EmptyShape singleton. Non-trivial: >= 3 "
     "members or two members of equal area."
 )
-MANDATORY = ["connected+", "connected-", "disjoint+", "disjoint-", "permutations", "operator-built", "empty-entries", "collapse", "curved", "equal-areas"]
+MANDATORY = ["connected+", "connected-", "disjoint+", "disjoint-", "permutations", "operator-built", "empty-entries", "collapse", "curved", "equal-areas", "tiny-member"]
 
 
 def _members(spec):
@@ -58,7 +59,7 @@ def judge(ctx, case):
     kind = lib.spec_kind(spec)
     areas = [float(lib.spec_moment(m)) for m in members]
     equal_areas = len({round(a, 9) for a in areas}) < len(areas)
-    strata = [kind] + (["curved"] if curved else []) + (["equal-areas"] if equal_areas else [])
+    strata = [kind] + (["curved"] if curved else []) + (["equal-areas"] if equal_areas else []) + (["tiny-member"] if case.get("tiny") else [])
     ctx.evaluated(case, len(members) >= 3 or equal_areas, strata)
     where = ("curved" if curved else "polygon") + ":" + kind
     margin = oc.MARGIN_CURVED if curved else probes.MARGIN
@@ -231,6 +232,31 @@ def equal_area_cases(draw):
 
 
 @st.composite
+def tiny_member_cases(draw):
+    """a valid member whose area is far below 1e-6 (a 0.5 mm pad in a drawing
+    in metres): it is a member like any other"""
+    nk = draw(st.sampled_from(["int", "frac"]))
+    R = S.base_radius(nk)
+    e = F(1, draw(st.sampled_from([2000, 5000, 1500])))
+    sq = lambda x, y, s: rg.polygon_curve([(x, y), (x + s, y), (x + s, y + s), (x, y + s)])
+    if draw(st.booleans()):
+        big = draw(S.star_curve(nk, (0.0, 0.0), 0.5 * R, R, (3, 7), (1,), False))
+        x0 = int(2 * R) + draw(st.integers(1, 5))
+        parts = [{"k": "simple", "curve": big}, {"k": "simple", "curve": sq(x0, draw(st.integers(-5, 5)), e)}]
+        if draw(st.booleans()):
+            parts.append({"k": "simple", "curve": sq(-x0, draw(st.integers(-5, 5)), e)})
+        spec = {"k": "disjoint", "parts": parts}
+    else:
+        outer = draw(S.star_curve(nk, (0.0, 0.0), 0.8 * R, R, (4, 8), (1,), False, container=True))
+        holes = [rg.curve_reverse(sq(draw(st.integers(-3, 0)), draw(st.integers(-3, 0)), e))]
+        if draw(st.booleans()):
+            holes.append(rg.curve_reverse(sq(draw(st.integers(1, 3)), draw(st.integers(1, 3)), e)))
+        spec = {"k": "connected", "curves": [outer] + holes}
+    assume(lib.spec_valid(spec, 1e-6))
+    return {"spec": spec, "us": draw(st.lists(st.floats(0, 1), min_size=12, max_size=12)), "operators": draw(st.booleans()), "tiny": True}
+
+
+@st.composite
 def collapse_cases(draw):
     mode = draw(st.sampled_from(["empty-list", "single", "single", "entries", "entries"]))
     nk = draw(st.sampled_from(S.NUMKINDS))
@@ -247,5 +273,6 @@ def parts(tier):
         Part("polygons", judge, cases(False), n=500 if q else 20000, budget_s=70 if q else 2400),
         Part("equal-areas", judge, equal_area_cases(), n=160 if q else 6000, budget_s=50 if q else 1200),
         Part("curved", judge, cases(True), n=32 if q else 800, budget_s=70 if q else 3000, shards=16),
+        Part("tiny-members", judge, tiny_member_cases(), n=120 if q else 4000, budget_s=50 if q else 1200),
         Part("collapse", judge_collapse, collapse_cases(), n=200 if q else 4000, budget_s=40 if q else 600),
     ]
